@@ -40,9 +40,54 @@ Theorem C08_process :
 Proof. exact color_process_correct. Qed.
 Print Assumptions C08_process.
 
+(* closure: the result of colour arithmetic on two literals is itself a well-formed literal that
+   denotes the channel-wise clamped triple and that Color.fmt leaves unchanged (so a variable or a
+   further operation sees exactly that colour) *)
+Theorem C08_closed :
+  forall v1 sym v2 o r1 g1 b1 r2 g2 b2,
+    colour_value v1 = Some (r1, g1, b1) -> colour_value v2 = Some (r2, g2, b2) ->
+    op_of_sym sym = Some o -> (o = OTrueDiv -> r2 <> 0 /\ g2 <> 0 /\ b2 <> 0)%N ->
+    exists w, color_expr v1 sym v2 = Some w /\
+      colour_value w = Some (chan_spec o r1 r2, chan_spec o g1 g2, chan_spec o b1 b2) /\
+      color_fmt w = Some w /\ wellformed_colour w = true.
+Proof. exact color_expr_closed. Qed.
+Print Assumptions C08_closed.
+
+(* chains: (v1 o v2) o' v3 for any three literals is the channel-wise composition of the two
+   clamped operations (clamping happens after each step, not once at the end) *)
+Theorem C08_chain :
+  forall v1 sym v2 sym' v3 o o' r1 g1 b1 r2 g2 b2 r3 g3 b3,
+    colour_value v1 = Some (r1, g1, b1) -> colour_value v2 = Some (r2, g2, b2) ->
+    colour_value v3 = Some (r3, g3, b3) ->
+    op_of_sym sym = Some o -> op_of_sym sym' = Some o' ->
+    (o = OTrueDiv -> r2 <> 0 /\ g2 <> 0 /\ b2 <> 0)%N ->
+    (o' = OTrueDiv -> r3 <> 0 /\ g3 <> 0 /\ b3 <> 0)%N ->
+    opt_bind (color_expr v1 sym v2) (fun w => color_expr w sym' v3) =
+      Some (hex6 (chan_spec o' (chan_spec o r1 r2) r3) (chan_spec o' (chan_spec o g1 g2) g3)
+                 (chan_spec o' (chan_spec o b1 b2) b3)).
+Proof. exact color_expr_chain. Qed.
+Print Assumptions C08_chain.
+
+(* the clamped channel operations: + and * commute, + is associative on channels, 0 is neutral,
+   x - x is black, + is monotone *)
+Theorem C08_channel_algebra :
+  (forall x y, chan_spec OAdd x y = chan_spec OAdd y x) /\
+  (forall x y, chan_spec OMul x y = chan_spec OMul y x) /\
+  (forall x y z, (x < 256)%N -> (y < 256)%N -> (z < 256)%N ->
+     chan_spec OAdd (chan_spec OAdd x y) z = chan_spec OAdd x (chan_spec OAdd y z)) /\
+  (forall x, (x < 256)%N -> chan_spec OAdd x 0 = x) /\
+  (forall x, chan_spec OSub x x = 0%N) /\
+  (forall x x' y, (x <= x')%N -> (chan_spec OAdd x y <= chan_spec OAdd x' y)%N).
+Proof.
+  exact (conj chan_add_comm (conj chan_mul_comm (conj chan_add_assoc (conj chan_add_0
+        (conj chan_sub_self chan_add_mono))))).
+Qed.
+Print Assumptions C08_channel_algebra.
+
 (* non-vacuity: concrete literals meet the hypotheses and the statement computes *)
 Example C08_example :
   colour_value $"#AbC" = Some (170, 187, 204)%N /\
   color_expr $"#AbC" $"+" $"#0000fF" = Some $"#aabbff" /\
-  color_expr $"#ffffff" $"/" $"#030507" = Some $"#553324".
+  color_expr $"#ffffff" $"/" $"#030507" = Some $"#553324" /\
+  opt_bind (color_expr $"#f80" $"+" $"#0F0F0F") (fun w => color_expr w $"-" $"#101010") = Some $"#ef8700".
 Proof. vm_compute. repeat split; reflexivity. Qed.
